@@ -108,7 +108,8 @@ fn text_node(i18n: leptos_i18n::I18nContext<Locale>, key: usize, n: usize) -> An
 pub enum Node {
     Text { key: usize },
     Set { l: usize },
-    Sub { init: Option<usize>, keys: Vec<usize> },
+    /// a sub-context provider; `inner`: another sub-context provider nested inside it (init, keys)
+    Sub { init: Option<usize>, keys: Vec<usize>, inner: Option<(Option<usize>, Vec<usize>)> },
     Suspense { gate: usize, key: usize },
 }
 
@@ -117,7 +118,10 @@ impl Node {
         match self {
             Node::Text { key } => json!({"t": "text", "key": KEYS[*key % KEYS.len()].1}),
             Node::Set { l } => json!({"t": "set", "l": LOCS[*l % 5]}),
-            Node::Sub { init, keys } => json!({"t": "sub", "init": init.map(|l| LOCS[l % 5]), "keys": keys.iter().map(|k| KEYS[*k % KEYS.len()].1).collect::<Vec<_>>()}),
+            Node::Sub { init, keys, inner } => json!({
+                "t": "sub", "init": init.map(|l| LOCS[l % 5]), "keys": keys.iter().map(|k| KEYS[*k % KEYS.len()].1).collect::<Vec<_>>(),
+                "inner": inner.as_ref().map(|(i, ks)| json!({"init": i.map(|l| LOCS[l % 5]), "keys": ks.iter().map(|k| KEYS[*k % KEYS.len()].1).collect::<Vec<_>>()})),
+            }),
             Node::Suspense { gate, key } => json!({"t": "suspense", "gate": gate, "key": KEYS[*key % KEYS.len()].1}),
         }
     }
@@ -127,7 +131,11 @@ impl Node {
         Some(match v["t"].as_str()? {
             "text" => Node::Text { key: key(&v["key"]) },
             "set" => Node::Set { l: l(&v["l"]).unwrap_or(0) },
-            "sub" => Node::Sub { init: l(&v["init"]), keys: v["keys"].as_array().map(|a| a.iter().map(key).collect()).unwrap_or_default() },
+            "sub" => Node::Sub {
+                init: l(&v["init"]),
+                keys: v["keys"].as_array().map(|a| a.iter().map(key).collect()).unwrap_or_default(),
+                inner: v["inner"].as_object().map(|o| (l(&o["init"]), o["keys"].as_array().map(|a| a.iter().map(key).collect()).unwrap_or_default())),
+            },
             "suspense" => Node::Suspense { gate: v["gate"].as_u64().unwrap_or(0) as usize, key: key(&v["key"]) },
             _ => return None,
         })
@@ -233,7 +241,11 @@ pub fn generate(rng: &mut Rng) -> Plan {
         for _ in 0..n_nodes {
             let node = match rng.below(10) {
                 0 => Node::Set { l: rng.below(5) },
-                1 | 2 => Node::Sub { init: if rng.chance(2, 3) { Some(rng.below(5)) } else { None }, keys: (0..1 + rng.below(2)).map(|_| rng.below(KEYS.len())).collect() },
+                1 | 2 => Node::Sub {
+                    init: if rng.chance(2, 3) { Some(rng.below(5)) } else { None },
+                    keys: (0..1 + rng.below(2)).map(|_| rng.below(KEYS.len())).collect(),
+                    inner: if rng.chance(1, 3) { Some((if rng.chance(1, 3) { Some(rng.below(5)) } else { None }, vec![rng.below(KEYS.len())])) } else { None },
+                },
                 3 | 4 if n_gates > 0 => Node::Suspense { gate: rng.below(n_gates), key: rng.below(KEYS.len()) },
                 _ => Node::Text { key: rng.below(KEYS.len()) },
             };
@@ -293,10 +305,10 @@ fn page_view(r: Request, gates: Vec<Gate>, set_cookies: Arc<Mutex<ResponseState>
     };
     let accept2 = accept.clone();
     let lopts = UseLocalesOptions::default().ssr_lang_header_getter(move || Some(accept.clone()));
-    let sub_lopts = move || {
+    let sub_lopts = std::sync::Arc::new(move || {
         let a = accept2.clone();
         UseLocalesOptions::default().ssr_lang_header_getter(move || Some(a.clone()))
-    };
+    });
     let gates2 = gates.clone();
     let children = move || {
         let mut out: Vec<AnyView> = vec![];
@@ -309,12 +321,29 @@ fn page_view(r: Request, gates: Vec<Gate>, set_cookies: Arc<Mutex<ResponseState>
                     // what the router's view wrapper does while rendering a localized route
                     i18n.set_locale(loc(*l));
                 }
-                Node::Sub { init, keys } => {
+                Node::Sub { init, keys, inner } => {
                     let keys = keys.clone();
+                    let inner = inner.clone();
                     let base = (n + 1) * 1000;
+                    let inner_lopts = sub_lopts.clone();
                     let children = move || {
                         let sub = use_i18n();
-                        keys.iter().enumerate().map(|(j, k)| text_node(sub, *k, base + j + 1)).collect::<Vec<_>>()
+                        let mut v: Vec<AnyView> = keys.iter().enumerate().map(|(j, k)| text_node(sub, *k, base + j + 1)).collect();
+                        if let Some((iinit, ikeys)) = inner.clone() {
+                            // a sub-context nested in a sub-context: its parent is the enclosing sub-context
+                            let inner_children = move || {
+                                let isub = use_i18n();
+                                ikeys.iter().enumerate().map(|(j, k)| text_node(isub, *k, base + 500 + j + 1)).collect::<Vec<_>>()
+                            };
+                            match iinit {
+                                Some(l) => {
+                                    let l = loc(l);
+                                    v.push(view! { <I18nSubContextProvider initial_locale=Signal::derive(move || l) ssr_lang_header_getter=inner_lopts()>{inner_children()}</I18nSubContextProvider> }.into_any())
+                                }
+                                None => v.push(view! { <I18nSubContextProvider ssr_lang_header_getter=inner_lopts()>{inner_children()}</I18nSubContextProvider> }.into_any()),
+                            }
+                        }
+                        v
                     };
                     match init {
                         Some(l) => {
@@ -659,13 +688,22 @@ fn expect(r: &Request) -> Expect {
                 must.insert((LOCS[main_locale].to_string(), k.0.to_string()));
                 texts.push((n, expected_text(*key, LOCS[main_locale]), false));
             }
-            Node::Sub { init, keys } => {
+            Node::Sub { init, keys, inner } => {
                 // created during construction: explicit initial locale, else the parent's locale at that moment
                 let l = init.map(|l| l % 5).unwrap_or(current);
                 for (j, key) in keys.iter().enumerate() {
                     let k = KEYS[*key % KEYS.len()];
                     must.insert((LOCS[l].to_string(), k.0.to_string()));
                     texts.push(((n + 1) * 1000 + j + 1, expected_text(*key, LOCS[l]), false));
+                }
+                if let Some((iinit, ikeys)) = inner {
+                    // the nested sub-context's parent is the enclosing sub-context, not the page's main context
+                    let il = iinit.map(|l| l % 5).unwrap_or(l);
+                    for (j, key) in ikeys.iter().enumerate() {
+                        let k = KEYS[*key % KEYS.len()];
+                        must.insert((LOCS[il].to_string(), k.0.to_string()));
+                        texts.push(((n + 1) * 1000 + 500 + j + 1, expected_text(*key, LOCS[il]), false));
+                    }
                 }
             }
             Node::Suspense { key, .. } => {
